@@ -1,6 +1,6 @@
 //! C07 — configured peer authentication is enforced (verdict-cache part).
 //! Engine E2: all histories up to length 4 (thorough 5) over {check(u1,p1), check(u1,p2), check(u2,p1),
-//! flip the backend's verdict for (u1,p1), wait 0.4 s, wait 1.3 s} against the real AuthData (external command =
+//! flip the backend's verdict for (u1,p1), wait 0.4 s, wait 1.3 s, runtime busy for 1.3 s} against the real AuthData (external command =
 //! a shell script that consults a verdict file and logs every invocation; cache.timeout = 1 s) on the real clock.
 //! Reference: a map of (user, pass) -> (verdict, time). Histories whose measured ages come within 150 ms of the
 //! timeout are discarded, never judged. SOCKS negotiation and the TLS grids are the real-socket part.
@@ -11,7 +11,9 @@ use std::collections::HashMap;
 use std::sync::atomic::{AtomicU64, Ordering};
 use std::time::{Duration, Instant};
 
-const EVENTS: [&str; 6] = ["check(u1,p1)", "check(u1,p2)", "check(u2,p1)", "flip(u1,p1)", "wait0.4", "wait1.3"];
+/// "busy1.3": the runtime thread is kept busy for 1.3 s (no task can run: the schedule in which the cache's own
+/// clean-up has not been scheduled yet although the deadline has passed); "wait1.3": it is idle for 1.3 s.
+const EVENTS: [&str; 7] = ["check(u1,p1)", "check(u1,p2)", "check(u2,p1)", "flip(u1,p1)", "wait0.4", "wait1.3", "busy1.3"];
 
 struct Outcome {
     hist: Vec<usize>,
@@ -81,7 +83,7 @@ async fn run_history(dir: String, idx: usize, hist: Vec<usize>) -> Outcome {
                     calls_expected += 1;
                     if invoked != 1 || after.last().map(|l| l.as_str()) != Some(&format!("{} {}", u, p)) {
                         // the verdict came from somewhere else than the backend: which cached entry could it be?
-                        let class = if cache.keys().any(|k| k.0 == u && k.1 != p) { "verdict-reused-for-another-password" } else if cached.is_some() { "verdict-reused-after-expiry" } else { "backend-not-consulted" };
+                        let class = if cached.is_some() { "verdict-reused-after-expiry" } else if cache.keys().any(|k| k.0 == u && k.1 != p) { "verdict-reused-for-another-password" } else { "backend-not-consulted" };
                         verdict = Err((class.to_string(), format!("step {step} {}: no valid cache entry for this pair, but the backend was invoked {invoked}x (last call {:?}); answer {got}", EVENTS[e], after.last())));
                         break;
                     }
@@ -101,7 +103,8 @@ async fn run_history(dir: String, idx: usize, hist: Vec<usize>) -> Outcome {
                 }
             }
             4 => tokio::time::sleep(Duration::from_millis(400)).await,
-            _ => tokio::time::sleep(Duration::from_millis(1300)).await,
+            5 => tokio::time::sleep(Duration::from_millis(1300)).await,
+            _ => std::thread::sleep(Duration::from_millis(1300)),
         }
     }
     let _ = std::fs::remove_dir_all(&base);
@@ -130,23 +133,25 @@ fn check() {
     let dir = format!("{}/target/c07-scratch-{}", VERIF_DIR, std::process::id());
     let _ = std::fs::remove_dir_all(&dir);
     std::fs::create_dir_all(&dir).unwrap();
-    let rt = tokio::runtime::Builder::new_multi_thread().worker_threads(12).enable_all().build().unwrap();
-    let outcomes: Vec<Outcome> = rt.block_on(async {
-        let sem = std::sync::Arc::new(tokio::sync::Semaphore::new(48));
-        let mut hs = vec![];
-        for (i, h) in hists.iter().enumerate() {
-            let (d, h, sem) = (dir.clone(), h.clone(), sem.clone());
-            hs.push(tokio::spawn(async move {
-                let _p = sem.acquire_owned().await.unwrap();
-                run_history(d, i, h).await
-            }));
+    // every history on its own single-threaded runtime (the "busy" event must stop that history's tasks, and only those)
+    let next = std::sync::atomic::AtomicUsize::new(0);
+    let results: std::sync::Mutex<Vec<(usize, Outcome)>> = Default::default();
+    std::thread::scope(|sc| {
+        for _ in 0..48 {
+            sc.spawn(|| loop {
+                let i = next.fetch_add(1, Ordering::Relaxed);
+                if i >= hists.len() {
+                    break;
+                }
+                let rt = tokio::runtime::Builder::new_current_thread().enable_all().build().unwrap();
+                let o = rt.block_on(run_history(dir.clone(), i, hists[i].clone()));
+                results.lock().unwrap().push((i, o));
+            });
         }
-        let mut out = vec![];
-        for h in hs {
-            out.push(h.await.expect("history task"));
-        }
-        out
     });
+    let mut results = results.into_inner().unwrap();
+    results.sort_by_key(|r| r.0);
+    let outcomes: Vec<Outcome> = results.into_iter().map(|r| r.1).collect();
     let _ = std::fs::remove_dir_all(&dir);
     let n = outcomes.len() as u64;
     let ambiguous = outcomes.iter().filter(|o| o.ambiguous).count() as u64;
